@@ -188,6 +188,7 @@ type exprGen struct {
 	multi bool   // selectors prefer to match several metric names (under a `without` aggregation)
 	qStart, qEnd, qStep int64 // the query's times (known before the expression is generated)
 	noMulti             bool  // inside a subquery: no regex on the metric name
+	atRoot              bool  // the next genVector call builds the root of the expression
 	avoid bool   // keep clear of the triggers of the known findings (empty-value matchers, regexes that
 	// behave differently unanchored); 80 % of the cases, so that fewer cases are masked by them
 }
@@ -340,7 +341,7 @@ func (g *exprGen) genSelector() *selector {
 	if (!hinted && g.r.Chance(25)) || (hinted && g.r.Chance(5)) {
 		s.offset = []int64{30_000, 300_000, 420_000, 1, 60_000, 15_000, -30_000, 1_500}[g.r.Intn(8)]
 	}
-	if !hinted && g.r.Chance(6) {
+	if !hinted && !g.avoid && g.r.Chance(12) {
 		var at int64
 		switch g.r.Intn(4) {
 		case 0:
@@ -430,16 +431,25 @@ func (g *exprGen) genLabels() []string {
 }
 
 func (g *exprGen) genVector(t int64, depth int) expr {
+	root := g.atRoot
+	g.atRoot = false
 	if y := g.r.Intn(100); y < 24 {
 		switch {
 		case y < 5: // timestamp()
-			if g.r.Chance(70) || depth <= 0 {
+			if g.r.Chance(60) || depth <= 0 {
 				sel := g.genSelector()
 				sel.at = nil // timestamp(m @ T): the engine wraps the argument as step invariant; not in the subset
+				if g.avoid {
+					if g.qStep > 0 {
+						// finding timestamp-of-row-not-sample: the selector form only in instant queries without offset
+						return &tsExpr{e: &binExpr{op: "+", match: "none", l: sel, r: &numLit{v: 0}}}
+					}
+					sel.offset = 0
+				}
 				return &tsExpr{e: sel}
 			}
 			return &tsExpr{e: g.genVector(t, depth-1)}
-		case y < 11: // subquery under a range function
+		case y < 8 && !g.avoid: // subquery under a range function (finding subquery-deviates)
 			sq := &subqExpr{fn: g.pick(rangeFns), rng: []int64{60_000, 120_000, 300_000, 90_000}[g.r.Intn(4)],
 				stp: []int64{10_000, 15_000, 30_000, 7_000, 60_000}[g.r.Intn(5)]}
 			if sq.rng < g.qStep {
@@ -457,17 +467,23 @@ func (g *exprGen) genVector(t int64, depth int) expr {
 			sq.e = g.genVector(t, d)
 			g.noMulti = old
 			return sq
-		case y < 16 && depth > 0: // topk / bottomk / quantile
+		case y < 14: // topk / bottomk / quantile (mostly outermost)
 			k := &kaggExpr{op: g.pick([]string{"topk", "bottomk", "quantile"}), without: g.r.Chance(40), labels: g.genLabels()}
+			if k.op != "quantile" && !root && (g.avoid || !g.r.Chance(30)) {
+				k.op = "quantile" // inside another node topk/bottomk elements lose labels (finding): mostly outermost
+			}
 			if k.op == "quantile" {
 				k.param = []float64{0, 0.5, 0.9, 1, 0.25, 1.5, -1, 0.75}[g.r.Intn(8)]
 			} else {
 				k.param = float64([]int{1, 2, 3, 1, 2, 0, 5}[g.r.Intn(7)])
 			}
-			if g.r.Chance(60) {
+			if g.r.Chance(60) || (g.avoid && k.op != "quantile") {
 				k.e = g.genSelector()
 			} else {
 				k.e = g.genVector(t, depth-1)
+			}
+			if g.avoid && k.op != "quantile" && k.param < 1 {
+				k.param = 2
 			}
 			return k
 		case y < 20 && depth > 0: // and / or / unless
@@ -673,6 +689,7 @@ func (g *exprGen) genQuery(avoid bool) *query {
 	default:
 		depth = 2
 	}
+	g.atRoot = true
 	q.e = g.genVector(t, depth)
 	q.text = q.e.text()
 	return q
